@@ -36,6 +36,18 @@ func init() {
 	core.Register("c19", runC14n)
 	core.Register("c19pack", runPack)
 	core.Register("c19sig", runSig)
+	// c19one <hex of document> <path>: canonicalise one element (replay helper)
+	core.Register("c19one", func(c *core.Ctx) error {
+		if len(c.Args) < 2 {
+			return fmt.Errorf("usage: c19one <dochex> <path>")
+		}
+		doc, err := hex.DecodeString(c.Args[0])
+		if err != nil {
+			return err
+		}
+		c.Emit(runOne(0, "one", string(doc), c.Args[1]))
+		return nil
+	})
 }
 
 // ---------------------------------------------------------------- keys
@@ -489,6 +501,7 @@ type genCase struct {
 	RefDoc    string      `json:"ref_doc,omitempty"` // hex: document holding the referenced content
 	RefPath   string      `json:"ref_path,omitempty"`
 	Inclusive bool        `json:"inclusive,omitempty"`
+	RefCase   int         `json:"ref_case"` // index into the signature case's c14n list: relic's own canonical form of the referenced content
 	Refs      [][2]string `json:"refs,omitempty"` // which=1: (URI, base64 digest) in order
 	NsDigSig  string      `json:"ns_digsig,omitempty"`
 	Fmt       string      `json:"fmt,omitempty"`
@@ -650,8 +663,10 @@ func runSig(c *core.Ctx) error {
 				}
 				unsignedRoot.ch = ch
 				plain := &style{r: &core.Rng{S: 1}, noCharRefs: true}
+				refDoc := plain.document(unsignedRoot)
+				sc.C14n = append(sc.C14n, runOne(0, "relicdoc:manifest-reference", refDoc, "-"))
 				sc.Gen = append(sc.Gen, &genCase{Which: 0, RefID: "", HashAlg: hashAlg, SigAlg: sigAlg, C14nAlg: "http://www.w3.org/2001/10/xml-exc-c14n#",
-					Hash: h.name, Tree: si.Tree, RefDoc: hx(plain.document(unsignedRoot)), RefPath: "-"})
+					Hash: h.name, Tree: si.Tree, RefDoc: hx(refDoc), RefPath: "-", RefCase: 1})
 			}
 			c.Emit(sc)
 
@@ -711,7 +726,7 @@ func runSig(c *core.Ctx) error {
 				hashAlg, sigAlg := algURIs(h.name, k.bits != 0, false)
 				se.Gen = append(se.Gen, &genCase{Which: 0, RefID: "idPackageObject", HashAlg: hashAlg, SigAlg: sigAlg,
 					C14nAlg: "http://www.w3.org/TR/2001/REC-xml-c14n-20010315", Hash: h.name, Tree: ci.Tree,
-					RefDoc: hx(string(blob)), RefPath: pathOf(root2, "Object")})
+					RefDoc: hx(string(blob)), RefPath: pathOf(root2, "Object"), RefCase: 1})
 			}
 			// the same document with an unused namespace declaration added to Signature (a re-serialisation the
 			// property allows): relic still accepts it, inclusive c14n of SignedInfo changes
@@ -775,7 +790,7 @@ func runSig(c *core.Ctx) error {
 			ns, fmtXML, fmtGo := vsix.VerifSignatureConsts()
 			sv.Gen = append(sv.Gen,
 				&genCase{Which: 0, RefID: "idPackageObject", HashAlg: hashAlg, SigAlg: sigAlg, C14nAlg: "http://www.w3.org/TR/2001/REC-xml-c14n-20010315",
-					Hash: h.name, Tree: vi.Tree, RefDoc: hx(string(vblob)), RefPath: pathOf(root3, "Object"), Inclusive: true},
+					Hash: h.name, Tree: vi.Tree, RefDoc: hx(string(vblob)), RefPath: pathOf(root3, "Object"), Inclusive: true, RefCase: 1},
 				&genCase{Which: 1, HashAlg: hashAlg, Hash: h.name, Tree: vo.Tree, Refs: refs, NsDigSig: ns, Fmt: fmtXML, Time: when.Format(fmtGo)})
 			c.Emit(sv)
 		}
